@@ -5,6 +5,8 @@
 package main
 
 import (
+	"bytes"
+	"crypto/sha256"
 	"encoding/json"
 	"flag"
 	"fmt"
@@ -27,9 +29,25 @@ import (
 
 type OP = refchain.Outpoint
 
+var wsOP1 = func() []byte { h := sha256.Sum256([]byte{0x51}); return append([]byte{0x00, 0x20}, h[:]...) }()
+
+// verify: the trivial language plus P2WSH(OP_1): valid iff spent with witness [0x51]
+// and an empty scriptSig once the witness rules are active (anyone-can-spend before).
+func verify(tx *reftx.Tx, idx int, spent []refchain.Coin, f refchain.Flags) bool {
+	if bytes.Equal(spent[idx].Script, wsOP1) {
+		in := &tx.In[idx]
+		if !f.Witness {
+			return len(in.Script) == 0
+		}
+		return len(in.Script) == 0 && len(in.Witness) == 1 && bytes.Equal(in.Witness[0], []byte{0x51})
+	}
+	return refchain.Trivial(tx, idx, spent, f)
+}
+
 var params = func() refchain.Params {
 	p := refchain.DefaultParams()
 	p.SigopCost = refchain.SigOpCost
+	p.Verify = verify
 	return p
 }()
 
@@ -41,11 +59,10 @@ func buildPrefix() *chainx.Prefix {
 	return chainx.BuildPrefix("c04", params, prefixLen, func(h uint32, s *minichain.Spec, p *chainx.Prefix) {
 		switch {
 		case h == 102:
-			m := minichain.Spend([]OP{p.Cb[1]}, []reftx.Out{o1(10e8), o1(10e8), o1(10e8), {Value: 10e8, Script: []byte{0x00}}, o1(5e8)})
+			m := minichain.Spend([]OP{p.Cb[1]}, []reftx.Out{o1(10e8), o1(10e8), o1(10e8), {Value: 10e8, Script: []byte{0x00}}, o1(5e8), {Value: 5e8, Script: wsOP1}})
 			s.Txs = append(s.Txs, m)
-			s.Fees = 5e8
 			id := m.TxID()
-			for i, n := range []string{"M0", "M1", "M2", "Mbad", "M4"} {
+			for i, n := range []string{"M0", "M1", "M2", "Mbad", "M4", "W0"} {
 				p.Named[n] = OP{Tx: id, Vout: uint32(i)}
 			}
 		case h == 103:
@@ -310,6 +327,15 @@ func variants() []variant {
 	add(variant{name: "script-fails-first-input", rule: "script verifies", build: func(c *ctx) *reftx.Block {
 		return blk(c, 62, 0, 0, sp(ops(c.coin("Mbad"), c.coin("M2")), outs(o1(20e8))))
 	}})
+	// a script whose validity depends on a height-gated verification flag
+	add(variant{name: "witness-program-spent-with-witness", build: func(c *ctx) *reftx.Block {
+		t := sp(ops(c.coin("W0")), outs(o1(5e8)))
+		t.In[0].Witness = [][]byte{{0x51}}
+		return minichain.Build(minichain.Spec{Prev: c.parent, Height: c.height, Tag: 64, Txs: []*reftx.Tx{t}, CbValue: -1, Witness: true})
+	}})
+	add(variant{name: "witness-program-spent-without-witness", rule: "script verifies", build: func(c *ctx) *reftx.Block {
+		return blk(c, 65, 0, 0, sp(ops(c.coin("W0")), outs(o1(5e8))))
+	}})
 	add(variant{name: "input-sum-exact-zero-fee", build: func(c *ctx) *reftx.Block {
 		return blk(c, 63, 0, 0, sp(ops(c.coin("M2"), c.coin("M4")), outs(o1(15e8))))
 	}})
@@ -322,8 +348,9 @@ type outcome struct {
 }
 
 type job struct {
-	st  state
-	seq []int // variant indexes
+	st    state
+	seq   []int // variant indexes
+	reorg bool  // deliver the (single) variant as a side-branch block that wins later
 }
 
 var watchdog = 120 * time.Second
@@ -350,6 +377,44 @@ func runJob(p *chainx.Prefix, vs []variant, j job, states map[string]bool, mu *s
 		}
 		c := &ctx{p: p}
 		c.refresh(s)
+		if j.reorg {
+			// The variant arrives as a side-branch block (stored, scripts unchecked) and
+			// is connected only when its branch overtakes the tip: M on the tip first, then
+			// V on the old tip, then a valid child of V.
+			v := vs[j.seq[0]]
+			if v.skip != nil && v.skip(c) {
+				return
+			}
+			c.missing = false
+			vb := v.build(c)
+			if c.missing {
+				return
+			}
+			m := blk(c, 200, 0, 0)
+			child := blk(&ctx{p: p, parent: vb.Hash(), height: c.height + 1}, 201, 0, 0)
+			for i, b := range []*reftx.Block{m, vb, child} {
+				s.Deliver([]string{"sibling-on-tip", v.name + " (side branch)", "child-of-variant"}[i], b)
+				atomic.AddInt64(trans, 1)
+				if k, w := s.Compare(); k != "" {
+					n := s.M.Nodes[vb.Hash()]
+					if n != nil && !s.M.Valid(n) {
+						out = &outcome{v.name + "/invalid-block-connected-via-reorg", fmt.Sprintf("state %s: block violating [%s] (%s) was connected when its side branch overtook the tip; %s", j.st.name, v.rule, s.M.Why(n), w), s.Trace}
+					} else {
+						mu.Lock()
+						twinLost[j.st.name+"/"+v.name+" via reorg: "+k] = true
+						mu.Unlock()
+					}
+					return
+				}
+			}
+			if v.rule != "" {
+				atomic.AddInt64(ruleHits[v.rule], 1)
+			}
+			mu.Lock()
+			states[j.st.name+"|reorg|"+s.StateKey()] = true
+			mu.Unlock()
+			return
+		}
 		for _, vi := range j.seq {
 			v := vs[vi]
 			if v.skip != nil && v.skip(c) {
@@ -455,6 +520,7 @@ func main() {
 			Replay struct {
 				State string   `json:"state"`
 				Seq   []string `json:"variants"`
+				Reorg bool     `json:"reorg"`
 			} `json:"replay"`
 		}
 		json.Unmarshal(b, &rec)
@@ -471,6 +537,7 @@ func main() {
 				}
 			}
 		}
+		j.reorg = rec.Replay.Reorg
 		o := runJob(p, vs, j, stateSet, &mu, &trans, ruleHits)
 		if o == nil {
 			fmt.Fprintln(ev.Out, "replay: passes")
@@ -515,9 +582,9 @@ func main() {
 					names = append(names, vs[i].name)
 				}
 				if o != nil {
-					r.Report(o.key, o.what, map[string]interface{}{"state": j.st.name, "variants": names, "trace": o.trace})
+					r.Report(o.key, o.what, map[string]interface{}{"state": j.st.name, "variants": names, "reorg": j.reorg, "trace": o.trace})
 				} else {
-					samples.Add(map[string]interface{}{"state": j.st.name, "variants": names})
+					samples.Add(map[string]interface{}{"state": j.st.name, "variants": names, "via_reorg": j.reorg})
 				}
 			}
 		}()
@@ -534,19 +601,20 @@ func main() {
 	}
 	for _, st := range sts {
 		for i := range vs {
-			jobs <- job{st, []int{i}}
+			jobs <- job{st: st, seq: []int{i}}
+			jobs <- job{st: st, seq: []int{i}, reorg: true}
 			for k := range vs {
 				// quick: every invalid variant followed by every valid one, and every valid one followed by everything
 				if !r.Thorough() && vs[i].rule != "" && vs[k].rule != "" {
 					continue
 				}
-				jobs <- job{st, []int{i, k}}
+				jobs <- job{st: st, seq: []int{i, k}}
 				if depth >= 3 {
 					for _, l := range valid {
 						if vs[i].rule == "" && vs[k].rule == "" {
 							continue
 						}
-						jobs <- job{st, []int{i, k, l}}
+						jobs <- job{st: st, seq: []int{i, k, l}}
 					}
 				}
 			}
